@@ -44,7 +44,7 @@ CHECKS = {
     "C04": dict(
         text="Unbounded proof that on every snake_case identifier the tool's default parameter key (serde camelCase field rule) equals the key "
              "Tauri's macro expects (heck lowerCamel), plus the precedence rename > command rename_all > configured default; tied to the code by "
-             "per-case equality with the real NamingContext and the real heck crate.",
+             "per-case equality with the real NamingContext and the real heck crate; proof that, for parameter lists in the statement's spellings, exactly the non-injected parameters become keys (value or channel, each once); the source's literal table of injected types is re-read on every run.",
         design_ref="DESIGN.md section 7.C04, Appendix D",
         note="Trusted: Lean kernel; transcription of heck 0.5 on snake strings (checked per case against the crate); Tauri macro assumed = heck::to_lower_camel_case.",
         technique="Lean 4 theorem (scan characterisation of heck + induction) + differential correspondence",
@@ -68,7 +68,7 @@ CHECKS = {
     "C13": dict(
         text="Proof that every ordered output is computed from a *sorted* enumeration and is therefore the same for every iteration order of the "
              "hash-based collections and of the directory listing (order = universally quantified permutation); tied to the code by byte comparison of "
-             "N fresh processes (fresh hash seeds), verbosity/visualisation variants and semantics-preserving source transformations on random multi-file projects.",
+             "N fresh processes (fresh hash seeds), verbosity/visualisation variants and semantics-preserving source transformations on random multi-file projects. Extended: the whole analysis and all four generated files of the model are invariant under every permutation of the file enumeration (C13_output_permutation_invariant).",
         design_ref="DESIGN.md section 7.C13",
         note="Trusted: Lean kernel; Rust's String/PathBuf Ord = code-point lexicographic; the model's whole-pipeline output is tied by the project-level correspondence (C02/C07 ops).",
         technique="Lean 4 theorems (sorting is permutation-invariant: Perm.eq_of_pairwise) + multi-process differential runs",
@@ -124,12 +124,12 @@ CHECKS = {
     ),
     "C03": dict(
         text="Proof over the analysis/generation model that the commands module holds exactly one wrapper per analysed command (both modes), named by camelCase, that sorting the files only reorders, "
-             "and that an unselected (unparsable / non-.rs / under target or .git) file leaves the whole analysis unchanged; tied to the code by whole-pipeline correspondence and a wrapper-bijection oracle on the real commands.ts.",
+             "and that an unselected (unparsable / non-.rs / under target or .git) file leaves the whole analysis unchanged; tied to the code by whole-pipeline correspondence and a wrapper-bijection oracle on the real commands.ts. Extended: for every project path without a target/.git component the tool's substring file filter equals the statement's component filter and the discovered commands are exactly the specified ones (C03_commands_exactly_statement); the literals of is_tauri_command and of the file walk are re-read from the source on every run.",
         design_ref="DESIGN.md section 7.C03", note="Trusted: Lean kernel; the hand-written analysis + generation model (tied per case: whole analysis and all four file texts modulo whitespace); syn / walkdir / tera / proc_macro2 modelled; exclusion classes stated on the input.",
         technique="Lean 4 theorems on the project model + whole-pipeline differential correspondence"),
     "C07": dict(
         text="Proof that every declared type is a discovered serde type, is declared once, and is reachable from the public surface through field types (soundness of the worklist closure, any fuel), and that every "
-             "serde-defined seed is declared; the completeness of the closure is tied per case by an independent reachability oracle on the real types.ts.",
+             "serde-defined seed is declared; the completeness of the closure is tied per case by an independent reachability oracle on the real types.ts. Extended: declared = reachable ∩ discovered, both directions, over the generation model (completeness of the worklist closure with the fuel used); should_include's literals re-read on every run.",
         design_ref="DESIGN.md section 7.C07, Appendix F", note="Trusted: Lean kernel; the hand-written analysis + generation model (tied per case: whole analysis and all four file texts modulo whitespace); syn / walkdir / tera / proc_macro2 modelled; exclusion classes stated on the input.",
         technique="Lean 4 theorems (closure soundness by induction over the worklist) + whole-pipeline differential correspondence"),
     "C09": dict(
